@@ -78,6 +78,10 @@ fn body_alphabet() -> Vec<Vec<u8>> {
     ])
 }
 
+fn deep_body_alphabet() -> Vec<Vec<u8>> {
+    toks(&[b"0", b"5", b"f", b"ffffffffffffffff", b";", b"\r", b"\n", b"x", b"hello", b"\""])
+}
+
 fn cl_alphabet() -> Vec<Vec<u8>> {
     toks(&[
         b"0", b"1", b"5", b"65536", b"9223372036854775808", b"18446744073709551615", b"18446744073709551616", b"-", b"+", b" ", b"\t",
@@ -166,7 +170,9 @@ pub fn server_group() -> Group {
         mk("header-section", b"GET / HTTP/1.1\r\n", b"\r\n\r\n", header_alphabet(), [4, 5]),
         mk("content-length", b"POST / HTTP/1.1\r\nContent-Length:", b"\r\n\r\nhello", cl_alphabet(), [4, 5]),
         mk("transfer-encoding", b"POST / HTTP/1.1\r\nTransfer-Encoding:", b"\r\n\r\n5\r\nhello\r\n0\r\n\r\n", te_alphabet(), [4, 5]),
-        mk("chunked-body", b"POST / HTTP/1.1\r\nTransfer-Encoding: chunked\r\n\r\n", b"", body_alphabet(), [4, 6]),
+        mk("chunked-body", b"POST / HTTP/1.1\r\nTransfer-Encoding: chunked\r\n\r\n", b"", body_alphabet(), [4, 5]),
+        // longer strings over the core of the chunk grammar
+        mk("chunked-body:deep", b"POST / HTTP/1.1\r\nTransfer-Encoding: chunked\r\n\r\n", b"", deep_body_alphabet(), [4, 7]),
     ];
     for (name, prefix, suffix) in [
         ("long:method", b"".as_ref(), b" / HTTP/1.1\r\n\r\n".as_ref()),
@@ -371,7 +377,8 @@ pub fn client_group() -> Group {
         targets.push(mk("content-length", b"HTTP/1.1 200 OK\r\nContent-Length:", b"\r\n\r\nhello", cl_alphabet(), short));
         if !head_method {
             targets.push(mk("transfer-encoding", b"HTTP/1.1 200 OK\r\nTransfer-Encoding:", b"\r\n\r\n5\r\nhello\r\n0\r\n\r\n", te_alphabet(), [4, 5]));
-            targets.push(mk("chunked-body", b"HTTP/1.1 200 OK\r\nTransfer-Encoding: chunked\r\n\r\n", b"", body_alphabet(), [4, 6]));
+            targets.push(mk("chunked-body", b"HTTP/1.1 200 OK\r\nTransfer-Encoding: chunked\r\n\r\n", b"", body_alphabet(), [4, 5]));
+            targets.push(mk("chunked-body:deep", b"HTTP/1.1 200 OK\r\nTransfer-Encoding: chunked\r\n\r\n", b"", deep_body_alphabet(), [4, 7]));
         }
         if !head_method {
             for (name, prefix, suffix) in [
